@@ -81,7 +81,7 @@ def regen():
     os.makedirs(WORK, exist_ok=True)
     fp = repo_fingerprint()
     stamp = os.path.join(GEN, "FINGERPRINT")
-    if os.path.exists(stamp) and open(stamp).read() == fp and os.path.exists(os.path.join(GEN, "STATUS.json")):
+    if os.path.exists(stamp) and open(stamp).read() == fp and os.path.exists(os.path.join(GEN, "STATUS.json")) and os.path.exists(os.path.join(GEN, "Sites.v")) and os.path.exists(os.path.join(GEN, "Body.v")):
         return json.load(open(os.path.join(GEN, "STATUS.json"))), False
     for f in glob.glob(os.path.join(GEN, "*.v")):
         os.remove(f)
